@@ -29,7 +29,12 @@ SUPERS = {
     "311": [[3, 0, 0], [0, 1, 0], [0, 0, 1]],
     "odd6": [[1, 0, 1], [0, 2, 0], [-1, 0, 2]],
     "neg2": [[1, 0, 0], [0, -1, 0], [0, 0, 2]],
+    # cells with more sites than a signed (150) or unsigned (288, thorough tier) byte can count: drawn rarely, for
+    # one-site-per-cell crystals only (building the supercell group costs 0.6 s and 2.5 s per worker)
+    "big150": [[5, 0, 0], [0, 5, 0], [0, 0, 6]],
+    "big288": [[6, 0, 0], [0, 6, 0], [0, 0, 8]],
 }
+BIG = ("big150", "big288")
 CRYSTALS = ("fcc", "hcp", "b2", "fccint", "intfirst", "tet2", "fcctet")
 DIALECTS = ("plain", "cart", "selective", "names", "scaled", "wrapped", "jitter", "trim")
 
@@ -808,7 +813,7 @@ class Engine(object):
 
     def draw_world(self, rng):
         c = rng.choice(CRYSTALS)
-        s = rng.choice(sorted(SUPERS))
+        s = rng.choice(sorted(k for k in SUPERS if k not in BIG))
         ns = rng.choice((0, 1, 1, 2, 2))
         inter = []
         if c == "fccint" and rng.random() < 0.7:
@@ -818,6 +823,10 @@ class Engine(object):
         if c == "fcctet":
             inter = [1] if rng.random() < 0.7 else []
             s = rng.choice(("222", "222", "221", "conv4", "odd6"))
+        if rng.random() < 0.04:
+            c = rng.choice(("fcc", "fccint", "intfirst"))
+            inter = []
+            s = "big288" if self.tier == "thorough" and rng.random() < 0.3 else "big150"
         return {"crystal": c, "super": s, "Nsolute": ns, "interstitial": inter,
                 "class": "{}/{}/s{}{}".format(c, s, ns, "i" if inter else ""), "quiet": rng.choice((0, 0, 0.5, 0.9)), "nosym": rng.random() < 0.08,
                 "scale": rng.choice((1.0, 1.0, 1.0, 0.4, 3.5))}
